@@ -44,15 +44,11 @@ def pat(seed, n):
     return bytes(out)
 
 
-def oracle(lines, trace):
-    """independent reading of the implementation's file"""
-    fl = [l for l in trace if l.startswith("F ")]
-    if not fl:
-        return [("c19/crash", "no file produced: %r" % trace[:2])]
-    data = bytes.fromhex(fl[0][2:]) if fl[0][2:] != "-" else b""
+def parse_pcap(data):
+    """independent reading of a capture file: (records, failures)"""
     fails = []
     if len(data) < 24:
-        return [("c19/header", "file shorter than a pcap header")]
+        return [], [("c19/header", "file shorter than a pcap header")]
     magic, vmaj, vmin, zone, sig, snap, link = struct.unpack("<IHHiIII", data[:24])
     if (magic, vmaj, vmin, link) != (0xa1b2c3d4, 2, 4, 101):
         fails.append(("c19/header", "bad pcap file header %r" % ((magic, vmaj, vmin, link),)))
@@ -86,6 +82,18 @@ def oracle(lines, trace):
         else:
             fails.append(("c19/ip", "protocol %d" % proto)); break
         recs.append((proto == 6, (sec - 441794304) * 1000000 + usec, src, dst, sp, dp, seq, payload))
+    return recs, fails
+
+
+def oracle(lines, trace):
+    """independent reading of the implementation's file"""
+    fl = [l for l in trace if l.startswith("F ")]
+    if not fl:
+        return [("c19/crash", "no file produced: %r" % trace[:2])]
+    data = bytes.fromhex(fl[0][2:]) if fl[0][2:] != "-" else b""
+    recs, fails = parse_pcap(data)
+    if not recs and fails:
+        return fails
     want = []
     for l in lines:
         t = l.split()
@@ -127,13 +135,46 @@ def gen_integration(rng, tier):
         if "M pcap_on" not in L:
             i = next(j for j, l in enumerate(L) if l.startswith("M "))
             L = L[:i] + ["M pcap_on"] + L[i:]
+        # UDP next to it: datagrams to a bound socket (recorded, one record each) and datagrams that are never
+        # put on the wire - to a port nobody is bound to, to an address no node has (no record)
+        assert L[-1] == "M run"
+        A1 = 167772161
+        U = ["M udp_new 80 1", "M udp_open 80 1", "M udp_bind 80 0 0 7100", "M udp_arecv 80 1 930 : 2000",
+             "M udp_new 81 2", "M udp_open 81 1"]
+        for j in range(rng.choice([1, 2, 4])):
+            dst, port = rng.choice([(A1, 7100), (A1, 7100), (A1, PHANTOM_PORT), (PHANTOM_ADDR, 7100)])
+            U.append("M udp_send 81 0 %d %d : %d %d" % (dst, port, 5 + j, rng.choice([1, 50, 1472])))
+        L = L[:-1] + U + ["M run"]
         out.append(("i%d" % k, L))
     return out
 
 
+PHANTOM_PORT = 7101
+PHANTOM_ADDR = 167772161 + 99
+
+
 def oracle_integration(lines, trace):
     bad = [l for l in trace if l.startswith(("CRASH", "EXC"))]
-    return [("c19/crash", bad[0])] if bad else []
+    if bad:
+        return [("c19/crash", bad[0])]
+    fl = [l for l in trace if l.startswith("F ")]
+    if not fl or fl[0][2:] == "-":
+        return []
+    recs, fails = parse_pcap(bytes.fromhex(fl[0][2:]))
+    for r in recs:
+        if not r[0] and (r[5] == PHANTOM_PORT or r[3] == PHANTOM_ADDR):
+            fails.append(("c19/phantom-record", "the capture holds a UDP record addressed to %d:%d, where no socket is bound: that datagram was "
+                          "discarded by send_to and never put on the wire" % (r[3], r[5])))
+            break
+    # one record per datagram sent to the bound socket
+    sent = sum(1 for l in lines if l.startswith("M udp_send 81 ") and l.split()[4:6] == ["167772161", "7100"])
+    got = sum(1 for r in recs if not r[0] and r[3] == 167772161 and r[5] == 7100)
+    if got != sent:
+        fails.append(("c19/udp-count", "%d UDP records for %d datagrams put on the wire towards the bound socket" % (got, sent)))
+    ts = [r[1] for r in recs]
+    if ts != sorted(ts):
+        fails.append(("c19/time-order", "time stamps decrease"))
+    return fails
 
 
 def nontrivial_integration(lines, trace):
